@@ -45,6 +45,21 @@ CLAIMED = {
              "it is covered by the end-to-end correspondence family only (partial).",
         technique="Lean 4 codec round-trip proofs over translator-generated tables + byte-exact model/implementation correspondence",
         design="8/C15"),
+    "C16": dict(
+        text="Lean 4 theorems: the modelled reader of a ClientMessage never panics on ANY byte string (the one overflow "
+             "site, now + peer-chosen duration, is modelled explicitly and the theorem is tied to the translated fact that "
+             "the source saturates there; witness theorem for the pre-fix overflow); the framed decoder maps truncated / "
+             "oversize input to errors (C15 stream theorems); the DelayQueue range panic is an explicit outcome of the "
+             "client/server models and the armed timeout is clamped per the translated constants. Tie: c16dec family "
+             "(random, mutated, truncated, spliced and boundary-valued byte streams fed to the real framed JSON/bincode "
+             "decoders under catch_unwind), c15bin (reader outcome value/error/panic predicted exactly), cli/srv system "
+             "families with extreme ids and deadlines decades away: no panic observation on any trace.",
+        note="Trusted: Lean kernel; axioms propext/Classical.choice/Quot.sound; translator flags; harness + ./check. Absence "
+             "of panics inside serde_json / bincode / LengthDelimitedCodec is tested, not proved. Virtual time (idle period "
+             "of a DelayQueue) stays below the wheel's range (2^36 ms). No tracing subscriber installed. The macro-generated "
+             "client's unreachable!() on a wrong response variant is outside the property's anchors (noted in DESIGN.md).",
+        technique="Lean 4 totality/no-panic proof tied to translated source facts + robustness differential runs under catch_unwind",
+        design="8/C16"),
     "C17": dict(
         text="Lean 4 theorems over a model of #[tarpc::service] as name tables (all service definitions: any number of "
              "methods/args, raw identifiers, any cfg pattern, any derive option): client method i -> request variant -> "
@@ -97,6 +112,49 @@ CLAIMED = {
         design="8/C20"),
 }
 
+# claimed automatically once lean/TarpcModel/Props/<id>*.lean exists (and ./check <id> passes before commit)
+SYS = {
+    'C01': dict(text="Lean 4 theorems over the poll-granular client model (Client/Model.lean): a response completes only the entry with its id and only that call's oneshot; unknown/late/duplicate ids leave every call, entry, timer and queue untouched; ids issued on a channel and its clones are pairwise distinct; run-level statements over all op sequences as listed in evidence.theorems. Tie: the model reproduces the real client's observation stream line by line on PRNG scripts (reordered, duplicated, unknown, already-finished response ids; abandonments; expirations); the C01 monitor (success only with a response read for the call's own id after its request was written, each response consumed once) runs on the implementation's trace.",
+        note='Trusted: Lean kernel; axioms propext/Classical.choice/Quot.sound; translator flags (Gen/Flags.lean), harness + ./check; library semantics modelled not verified (tokio mpsc/oneshot/semaphore hand-off, tokio-util DelayQueue timer wheel, futures Abortable/Fuse); one poll = one atomic step; executor drops a completed dispatch / the application stops at the first error item. ',
+        technique='Lean 4 invariant proofs over an executable poll-granular model + exact model/implementation correspondence + proved-style monitor on implementation traces', design='8/C01'),
+    'C02': dict(text="Lean 4 theorems, one per wake-enabling event of the property's second sentence (reply/close/error arrival, new request, cancellation, capacity returning, writability returning, completion → caller): the event sets the woken flag of the task that must act, and a task that returns Pending has registered where the model says; the global no-stuck statement is a checked def (C02NoStuckStatement), decided on every woken-only trace by the `settle` operation, which drives model and implementation only through their own wakers until quiescence and compares outcomes and stuck sets. Server side likewise (responses queued / inbound unread with nobody woken).",
+        note='Trusted: Lean kernel; axioms propext/Classical.choice/Quot.sound; translator flags (Gen/Flags.lean), harness + ./check; library semantics modelled not verified (tokio mpsc/oneshot/semaphore hand-off, tokio-util DelayQueue timer wheel, futures Abortable/Fuse); one poll = one atomic step; executor drops a completed dispatch / the application stops at the first error item. ',
+        technique='Lean 4 per-event wake theorems + woken-only differential execution to quiescence (settle) on model and implementation', design='8/C02'),
+    'C03': dict(text="Lean 4 theorems over the client model: the dequeue loop never yields a request whose receiver is closed; a Cancel is written only for an id that was in flight (and removes it), hence at most once and only after its Request; the guard closes the receiver before queueing the cancel at every yield point (hook); run-level invariants over all op sequences as listed in evidence.theorems. Tie: exact correspondence incl. drops interleaved with the dispatch at the guard's three yield points; the C03 monitor (request after abandonment, cancel preconditions, cancel owed after a writable poll) runs on the implementation's trace.",
+        note='Trusted: Lean kernel; axioms propext/Classical.choice/Quot.sound; translator flags (Gen/Flags.lean), harness + ./check; library semantics modelled not verified (tokio mpsc/oneshot/semaphore hand-off, tokio-util DelayQueue timer wheel, futures Abortable/Fuse); one poll = one atomic step; executor drops a completed dispatch / the application stops at the first error item. ',
+        technique='Lean 4 invariant proofs over the client model + correspondence with hook-interleaved drops + monitor on implementation traces', design='8/C03'),
+    'C04': dict(text="Lean 4 theorems over the server model: a Cancel for a tracked id sets exactly that execution's abort flag, forgets the entry and its timer and nothing else; for an untracked id it is the identity; an aborted execution never polls its handler nor queues a response; cascade down a chain of any depth by induction (Chain model). Tie: exact correspondence of the server model (cancel at every position relative to handler start/completion/response buffering/write, with and without limit, sink stalls); chain family with real 1-3 hop client/server chains; C04 monitor on implementation traces.",
+        note='Trusted: Lean kernel; axioms propext/Classical.choice/Quot.sound; translator flags (Gen/Flags.lean), harness + ./check; library semantics modelled not verified (tokio mpsc/oneshot/semaphore hand-off, tokio-util DelayQueue timer wheel, futures Abortable/Fuse); one poll = one atomic step; executor drops a completed dispatch / the application stops at the first error item. ',
+        technique='Lean 4 mechanism + induction proofs + model/implementation correspondence (single hop exact, chains abstract)', design='8/C04'),
+    'C05': dict(text="Lean 4 theorems over the client model and the DelayQueue (timer-wheel) model: a DeadlineExceeded outcome is produced only at a virtual time >= the call's deadline (never early), for every deadline, queueing delay and clock stepping; the armed timeout is deadline - transmission time. Tie: exact correspondence under a virtual clock (verif-hooks) with clock steps landing 1 ns before / at / after timer ticks; C05 monitor (never early; reply before deadline wins; expired by the first dispatch poll at or after the tick).",
+        note='Trusted: Lean kernel; axioms propext/Classical.choice/Quot.sound; translator flags (Gen/Flags.lean), harness + ./check; library semantics modelled not verified (tokio mpsc/oneshot/semaphore hand-off, tokio-util DelayQueue timer wheel, futures Abortable/Fuse); one poll = one atomic step; executor drops a completed dispatch / the application stops at the first error item. ',
+        technique='Lean 4 invariant proof (timer entries never earlier than deadlines) + virtual-time correspondence + monitor', design='8/C05'),
+    'C06': dict(text='Lean 4 theorems over the server model: expiry aborts only at now >= deadline; expiry touches only the expired request; all due expirations are drained before the channel goes idle; witness theorem for the limiter stall (known finding). Tie: exact correspondence under a virtual clock; C06 monitor on implementation traces; the stall finding is matched by signature and reported as KNOWN-FINDING.',
+        note='Trusted: Lean kernel; axioms propext/Classical.choice/Quot.sound; translator flags (Gen/Flags.lean), harness + ./check; library semantics modelled not verified (tokio mpsc/oneshot/semaphore hand-off, tokio-util DelayQueue timer wheel, futures Abortable/Fuse); one poll = one atomic step; executor drops a completed dispatch / the application stops at the first error item. ',
+        technique='Lean 4 invariant proofs + virtual-time correspondence + monitor; known finding by signature', design='8/C06'),
+    'C08': dict(text='Lean 4 theorems over the server model: a response is written only while its id is tracked and that untracks it (at most one per accepted request, none for ids never read); a request whose id is tracked is ignored without any state change; run-level statements as listed in evidence.theorems. Tie: exact correspondence on peer streams with fresh ids, duplicates while in flight, ids re-used after completion, cancels, closes, every completion order; C08 monitor.',
+        note='Trusted: Lean kernel; axioms propext/Classical.choice/Quot.sound; translator flags (Gen/Flags.lean), harness + ./check; library semantics modelled not verified (tokio mpsc/oneshot/semaphore hand-off, tokio-util DelayQueue timer wheel, futures Abortable/Fuse); one poll = one atomic step; executor drops a completed dispatch / the application stops at the first error item. ',
+        technique='Lean 4 mechanism/invariant proofs + correspondence + monitor', design='8/C08'),
+    'C09': dict(text='Lean 4 theorems over both models: the dispatch ends with the activity of the transport call that failed; a failing request write completes only that call with Send; after a terminal error no transport call is made; the server reports the failing activity through its stream and dropping the stream aborts every tracked handler; no model step panics under any fault sequence (deadline range as hypothesis). Tie: one-shot faults injected before any transport call by the PRNG with calls in every stage, EOF at every point; C09 monitors on implementation traces.',
+        note='Trusted: Lean kernel; axioms propext/Classical.choice/Quot.sound; translator flags (Gen/Flags.lean), harness + ./check; library semantics modelled not verified (tokio mpsc/oneshot/semaphore hand-off, tokio-util DelayQueue timer wheel, futures Abortable/Fuse); one poll = one atomic step; executor drops a completed dispatch / the application stops at the first error item. ',
+        technique='Lean 4 control-flow proofs + fault-injection correspondence + monitors', design='8/C09'),
+    'C10': dict(text='Lean 4 theorems: the client calls poll_close only with both queues closed and drained; after inbound EOF the dispatch completes in that poll; the server stream ends only with inbound closed, nothing in flight and nothing unflushed. Tie: correspondence with handle drop / peer close at every point; C10 monitors.',
+        note='Trusted: Lean kernel; axioms propext/Classical.choice/Quot.sound; translator flags (Gen/Flags.lean), harness + ./check; library semantics modelled not verified (tokio mpsc/oneshot/semaphore hand-off, tokio-util DelayQueue timer wheel, futures Abortable/Fuse); one poll = one atomic step; executor drops a completed dispatch / the application stops at the first error item. ',
+        technique='Lean 4 control-flow proofs + correspondence + monitors', design='8/C10'),
+    'C11': dict(text='Lean 4 theorems: client in-flight table never exceeds max_in_flight_requests; on both ends the armed timers and the table always have the same keys (every removal path removes the timer): the verif-hooks counters are always equal. Tie: correspondence incl. the hook counters; C11 monitors (bound; table = timers; reclaimed when idle / equality with the yielded-and-unfinished requests at idle polls); server stall finding reported as KNOWN-FINDING.',
+        note='Trusted: Lean kernel; axioms propext/Classical.choice/Quot.sound; translator flags (Gen/Flags.lean), harness + ./check; library semantics modelled not verified (tokio mpsc/oneshot/semaphore hand-off, tokio-util DelayQueue timer wheel, futures Abortable/Fuse); one poll = one atomic step; executor drops a completed dispatch / the application stops at the first error item. ',
+        technique='Lean 4 invariant proofs + correspondence incl. hook counters + monitors; known finding by signature', design='8/C11'),
+    'C12': dict(text='Lean 4 theorems over the limiter model: a request is handed out only with at most L in flight including itself; a refused request gets exactly the throttle reply and never becomes an execution; a refusal happens only in a poll that began at the limit; witness theorem for the over-throttle (known finding: refused although fewer than L in flight when read). Tie: correspondence with limits 0-2 and mixed request/cancel batches; C12 monitor; the over-throttle finding is matched by signature.',
+        note='Trusted: Lean kernel; axioms propext/Classical.choice/Quot.sound; translator flags (Gen/Flags.lean), harness + ./check; library semantics modelled not verified (tokio mpsc/oneshot/semaphore hand-off, tokio-util DelayQueue timer wheel, futures Abortable/Fuse); one poll = one atomic step; executor drops a completed dispatch / the application stops at the first error item. ',
+        technique='Lean 4 proofs over the limiter model + correspondence + monitor; known finding by signature', design='8/C12'),
+    'C14': dict(text='Lean 4 theorems over both models and the SimTransport contract recorder: no start_send without a preceding poll_ready -> Ready in any reachable state; no write after close or after a readiness/flush/close failure; with the current ensure_writeable no busy loop (witness theorem for the pre-fix loop); flush pending or done whenever the owner goes idle. Tie: correspondence of the complete transport call sequence (capacities 1-3, coupled and independent readiness, faults); C14 monitor on implementation traces; translator flags tie the ensure_writeable shape to the source.',
+        note='Trusted: Lean kernel; axioms propext/Classical.choice/Quot.sound; translator flags (Gen/Flags.lean), harness + ./check; library semantics modelled not verified (tokio mpsc/oneshot/semaphore hand-off, tokio-util DelayQueue timer wheel, futures Abortable/Fuse); one poll = one atomic step; executor drops a completed dispatch / the application stops at the first error item. ',
+        technique='Lean 4 control-flow proofs + full transport-call-log correspondence + monitor + translator flag', design='8/C14'),
+    'C18': dict(text="Lean 4 theorems: the Cancel written for an id carries the trace context stored with its in-flight entry, which is the one its Request was written with (same trace id, span id, sampling decision); chain model: every hop observes the caller's trace id and sampling decision with pairwise distinct fresh spans, non-interference between concurrent calls. Tie: correspondence of trace fields at the client sink and of the context the server yields; chain family on real 1-3 hop chains; C18 monitors.",
+        note='Trusted: Lean kernel; axioms propext/Classical.choice/Quot.sound; translator flags (Gen/Flags.lean), harness + ./check; library semantics modelled not verified (tokio mpsc/oneshot/semaphore hand-off, tokio-util DelayQueue timer wheel, futures Abortable/Fuse); one poll = one atomic step; executor drops a completed dispatch / the application stops at the first error item. ',
+        technique='Lean 4 proofs (client/server models + chain model) + correspondence + monitors', design='8/C18'),
+}
+
 NOT_YET = {
 }
 
@@ -105,6 +163,9 @@ def main():
     checks, na = [], []
     for p in props:
         pid = p["id"]
+        if pid in SYS and pid not in CLAIMED and list((V / "lean" / "TarpcModel" / "Props").glob(f"{pid}*.lean")) \
+                and (V / "tools" / "props" / f"{pid.lower()}.py").exists():
+            CLAIMED[pid] = SYS[pid]
         if pid in CLAIMED:
             c = CLAIMED[pid]
             checks.append({
